@@ -22,7 +22,7 @@ def build(ctx, name="pmsim", sanitize=True, extra=()):
 
 
 class Round:
-    __slots__ = ("lines", "poll", "now", "timeout", "interest", "devs", "mem", "vfds", "kids")
+    __slots__ = ("lines", "poll", "now", "timeout", "ready", "interest", "devs", "mem", "vfds", "kids")
 
 
 class Sim:
@@ -69,10 +69,10 @@ class Sim:
                 return None
             self.trace.append(l)
             if l.startswith("POLL "):
-                m = re.match(r"POLL round=(\d+) now=(-?\d+) timeout=(-?\d+) vfds=(\d+) kids=(-?\d+) interest=(.*)", l)
-                r.poll = int(m.group(1)); r.now = int(m.group(2)); r.timeout = int(m.group(3))
-                r.vfds = int(m.group(4)); r.kids = int(m.group(5))
-                r.interest = dict(x.split(":") for x in m.group(6).split(",") if x)
+                m = re.match(r"POLL round=(\d+) now=(-?\d+) timeout=(-?\d+) ready=(\d+) vfds=(\d+) kids=(-?\d+) interest=(.*)", l)
+                r.poll = int(m.group(1)); r.now = int(m.group(2)); r.timeout = int(m.group(3)); r.ready = int(m.group(4))
+                r.vfds = int(m.group(5)); r.kids = int(m.group(6))
+                r.interest = dict(x.split(":") for x in m.group(7).split(",") if x)
                 return r
             if l.startswith("DEV "):
                 d = dict(x.split("=", 1) for x in l.split()[2:])
